@@ -12,6 +12,11 @@
      setCurrentIteration(e)    UPDATE info SET iteration = e  (after executeTasks, still inside)  -> SetIteration e
      buildComplete()           END (= COMMIT), then the connection is closed               -> Commit
    A build refused at entry (buildCancelled already set) issues only  Begin; Commit.
+   A CANCELLED or CYCLE-FAILED build issues the same shape as a successful one: executeTasks() returns false after the
+   tasks that completed before the cancellation went through setRuleResult, setCurrentIteration(e) is still called
+   (it precedes the `if (!success) return` of build()), then END.  So its trace is [trace_of_build e completed] with
+   [completed] = the results of the tasks that finished (a sub-list of what the whole build would have stored);
+   [wf_trace] accepts it as it stands.  What must not happen is in [trace_failed_no_iteration].
 
    Atomicity of a SQLite transaction under process death (rollback journal, hot-journal recovery by the next
    connection) is NOT proved here: it is built into [recover], which returns the state as of the last [Commit]
@@ -156,3 +161,7 @@ Definition trace_iteration_after_commit (e : N) (results : list (key * result)) 
 (* every result committed on its own *)
 Definition trace_commit_per_result (e : N) (results : list (key * result)) : list dbop :=
   flat_map (fun kr => Begin :: ops_of_result kr ++ [Commit]) results ++ [Begin; SetIteration e; Commit].
+(* the database update moved behind the `!success` early return of build(): a cancelled / cycle-failed build commits
+   the rows of its completed tasks but not its epoch *)
+Definition trace_failed_no_iteration (e : N) (completed : list (key * result)) : list dbop :=
+  Begin :: flat_map ops_of_result completed ++ [Commit].
